@@ -144,6 +144,8 @@ def gen_configs(ctx, n):
         high = r.choice([None, None, float(nyq), float(nyq) - 100.0, float(nyq) * 0.75, float(nyq) / 2])
         if high is not None and high <= low + 200:
             high = None
+        if scale == "octave":
+            low = max(low, 20.0)  # the octave scale maps 0 Hz to -inf
         cfg = dict(bank=kind, scale=scale, rate=rate, low=low, high=high, num_filts=r.choice([1, 2, 3, 5, 8, 13, 24, 40]))
         if kind in ("tri", "fbank"):
             cfg["analytic"] = r.random() < 0.5
@@ -404,6 +406,11 @@ def run(ctx, driver):
             continue
         kind = cfg["bank"]
         scope = in_property(cfg)
+        hz = [v for pr in bank.supports_hz for v in pr] + list(bank.centers_hz)
+        if not all(math.isfinite(v) for v in hz) or any(not (a < b) for a, b in zip(bank.centers_hz, bank.centers_hz[1:])):
+            ctx.count("out_of_scope")  # degenerate layout (non-finite or non-increasing frequencies)
+            ctx.count("degenerate_layout")
+            continue
         ctx.count("bank:" + kind + ("" if scope else ":outside_property"))
         nf = bank.num_filts
         rate = bank.sampling_rate
@@ -457,7 +464,7 @@ def run(ctx, driver):
                     continue
                 p = params[i]
                 ks = {0, 1, W - 1, W // 2, right % W, (right + 1) % W, left % W, (left - 1) % W}
-                while len(ks) < 12:
+                while len(ks) < min(12, W):
                     ks.add(r.randrange(W))
                 for k in sorted(ks):
                     case = dict(cfg, filt=i, width=W, sample=k)
